@@ -160,10 +160,13 @@ def viaBuilder (directed : Bool) (kindTok dir target : String) : String × Strin
           [["P", "T", "G"], ["T", "P", "G"], ["G", "T", "P"], ["P", "G", "T"], ["T", "G", "P"], ["G", "P", "T"]].getD (n % 6) []
         else [["P", "G"], ["G", "P"]].getD (n % 2) [])
       else if directed then [["T", "G"], ["G", "T"]].getD (n % 2) [] else ["G"]
-    let steps : List (BStep Nat) := order.filterMap fun s =>
-      if s == "T" then (if dir == "tr" then some .transpose else none)
-      else if s == "P" then (if kind == "pfs-max" then some .max else some .min)
-      else (target.toNat?).map .target
+    -- variants 12..23: the opposite priority is set first (the last call wins)
+    let twice := n / 12 % 2 == 1
+    let steps : List (BStep Nat) := order.flatMap fun s =>
+      if s == "T" then (if dir == "tr" then [.transpose] else [])
+      else if s == "P" then
+        (if kind == "pfs-max" then (if twice then [.min, .max] else [.max]) else (if twice then [.max, .min] else [.min]))
+      else ((target.toNat?).map .target).toList
     let c := BCfg.build steps
     let kind' := if pfs then (if c.max then "pfs-max" else "pfs-min") else kind
     let dir' := if c.tr then "tr" else (if dir == "tr" then "fwd" else dir)
